@@ -133,6 +133,20 @@ def rule_tls_restore(ctx, cfg, F):
                 return None
             return ("L", l, path)
 
+        def dest_key(pl):
+            """where a call's result is written: a plain local, or a field of something reached through references (`self.list = mem::replace(..)`)"""
+            fp = tuple(e["f"] for e in pl.get("p", []) if isinstance(e, dict) and "f" in e)
+            if not pl.get("p"):
+                return lkey(pl["l"])
+            if "*" in pl.get("p", []):
+                lc = local_cell({"k": "cp", "pl": {"l": pl["l"]}})
+                if lc is not None:
+                    return ("L", lc[1], lc[2] + fp)
+                k_, is_t = cell_key(f, tr, {"k": "cp", "pl": {"l": pl["l"]}})
+                if k_ is not None:
+                    return (k_[0], k_[1], tuple(k_[2]) + fp)
+            return ("L", pl["l"], fp)
+
         def operand_cell(a):
             k, is_t = cell_key(f, tr, a)
             if not is_t:
@@ -166,6 +180,11 @@ def rule_tls_restore(ctx, cfg, F):
                         for k, v in list(d.items()):
                             if k[0] == "L" and k[1] == src and k[2][:len(apath)] == apath:
                                 state = setv(state, ("L", st["lhs"]["l"], (i,) + k[2][len(apath):]), v)
+                elif st["lhs"].get("p") and st["lhs"].get("p") != ["*"] and st["rv"]["r"] == "use" and op_local(st["rv"]["a"][0]) is not None and lkey(op_local(st["rv"]["a"][0])) in d:
+                    # `self.list = <what mem::replace handed back>`: a tracked list stored into a field reached through references (the message's own list)
+                    k_l, _t = cell_key(f, tr, {"k": "cp", "pl": st["lhs"]})
+                    if k_l is not None:
+                        state = setv(state, k_l, d[lkey(op_local(st["rv"]["a"][0]))])
                 elif st["lhs"].get("p") == ["*"] and st["rv"]["r"] == "use":
                     # `*table.borrow_mut() = list`
                     k, is_t = cell_key(f, tr, {"k": "cp", "pl": {"l": st["lhs"]["l"]}})
@@ -173,21 +192,28 @@ def rule_tls_restore(ctx, cfg, F):
                         src = op_local(st["rv"]["a"][0])
                         tables[k] = True
                         state = setv(state, k, d[lkey(src)] if src is not None and lkey(src) in d else ("O", "store@bb%d" % b))
+                    elif k:
+                        # `self.list = <what mem::replace handed back>` through a captured reference: the message's own list now holds that value
+                        src = op_local(st["rv"]["a"][0])
+                        k2 = local_cell({"k": "cp", "pl": {"l": st["lhs"]["l"]}}) or k
+                        if src is not None and lkey(src) in d:
+                            state = setv(state, k2, d[lkey(src)])
             t = f.term(b)
             if t["t"] == "call":
                 name = side_table_exchange(t)
                 if name == "std::mem::take":
                     k = operand_cell(t["args"][0])
                     if k:
-                        state = setv(state, lkey(t["dest"]["l"]), val(state, k))
+                        state = setv(state, dest_key(t["dest"]), val(state, k))
                         state = setv(state, k, ("EMPTY",))
                 elif name == "std::mem::replace":
                     k = operand_cell(t["args"][0])
                     src = op_local(t["args"][1])
                     if k:
                         newv = val(state, lkey(src)) if src is not None and lkey(src) in dict(state) else ("O", "replace@bb%d" % b)
-                        state = setv(state, lkey(t["dest"]["l"]), val(state, k))
+                        oldv = val(state, k)
                         state = setv(state, k, newv)
+                        state = setv(state, dest_key(t["dest"]), oldv)
                 elif name == "std::mem::swap":
                     k1, k2 = operand_cell(t["args"][0]), operand_cell(t["args"][1])
                     if k1 and k2:
